@@ -64,8 +64,13 @@ def variant_of(rec):
     return ""
 
 
+def _small(x):
+    return x if len(str(x)) < 600 else "(observation of the original)"
+
+
 def check_one(ctx, rec, route):
-    """returns None (holds) | ('skip', why) | failure tuple (sig, what, expected, got)"""
+    """returns None (holds) | ('skip', why) | [failure tuple (sig, what, expected, got), ...] — one per observed FIELD
+    that differs, so that a listed finding about one field can never hide a difference in another field"""
     from . import c10_gen as G
     from . import c10_hist as H
 
@@ -80,21 +85,31 @@ def check_one(ctx, rec, route):
     try:
         y = roundtrip(x, route)
     except Exception as e:
-        return (f"{fam}/{var}:{route}:raised:{type(e).__name__}", f"{route} round trip raised {type(e).__name__}: {str(e)[:160]}", before, {"exc": type(e).__name__})
+        return [(f"{fam}/{var}:{route}:raised:{type(e).__name__}", f"{route} round trip raised {type(e).__name__}: {str(e)[:160]}", _small(before), {"exc": type(e).__name__})]
     try:
         after = G.canon(G.observe(y))
     except Exception as e:
-        return (f"{fam}/{var}:{route}:unobservable:{type(e).__name__}", f"rebuilt object cannot be observed: {type(e).__name__}: {str(e)[:160]}", before, {"exc": type(e).__name__})
+        return [(f"{fam}/{var}:{route}:unobservable:{type(e).__name__}", f"rebuilt object cannot be observed: {type(e).__name__}: {str(e)[:160]}", _small(before), {"exc": type(e).__name__})]
     tol = 1e-6 if fam in ("lf",) or (fam == "result" and rec["kind"] in ("model", "hypothesis", "model_collection", "bootstrap")) else 1e-12
-    d = G.diff(before, after, tol)
-    if d is None:
-        # the original must not have been changed by serialising it
-        again = G.canon(G.observe(x))
-        d2 = G.diff(before, again, tol)
-        if d2:
-            return (f"{fam}/{var}:{route}:mutates-original:{G.field_of(d2[0])}", f"{route} changed the ORIGINAL object at {d2[0]}", d2[1], d2[2])
-        return None
-    return (f"{fam}/{var}:{route}:{G.field_of(d[0])}", f"{route} round trip differs at {d[0]}", d[1], d[2])
+    ds = G.diff_all(before, after, tol)
+    fails, seen = [], set()
+    for path, ea, eb in ds:
+        fld = G.field_of(path)
+        if fld in seen:
+            continue
+        seen.add(fld)
+        fails.append((f"{fam}/{var}:{route}:{fld}", f"{route} round trip differs at {path}", _small(ea), _small(eb)))
+    if fails:
+        return fails
+    # the original must not have been changed by serialising it
+    again = G.canon(G.observe(x))
+    for path, ea, eb in G.diff_all(before, again, tol):
+        fld = G.field_of(path)
+        if fld in seen:
+            continue
+        seen.add(fld)
+        fails.append((f"{fam}/{var}:{route}:mutates-original:{fld}", f"{route} changed the ORIGINAL object at {path}", _small(ea), _small(eb)))
+    return fails or None
 
 
 # --------------------------------------------------------------------------
@@ -141,12 +156,50 @@ def spec_check(ctx, budget):
     bump(out, "registry_keys", len(reg))
     for k in reg:
         bump(out, "registry_covered_by", ",".join(f for f in H.COVERS.get(k, ["(none)"]) if f in H.FAMILIES) or "(none)")
-    scale = budget if not ctx.thorough else budget * 1.0
     known = load_known(PROP)
     kept_per_known = {}
+
+    def record(rec, route, fails, prefix=""):
+        for sig, what, exp, got in fails:
+            sig = prefix + sig
+            bump(out, "failed", sig)
+            # keep every failure that no listed finding explains; of the explained ones keep a few per finding,
+            # so that the bounded failure list can never crowd out an unexplained failure
+            probe = dict(sig=sig, what=what, got=got, input=dict(recipe=rec, route=route))
+            hit = next((k["id"] for k in known if match_finding(probe, k)), None)
+            if hit is not None:
+                kept_per_known[hit] = kept_per_known.get(hit, 0) + 1
+                bump(out, "explained_by", hit)
+                if kept_per_known[hit] > 4:
+                    continue
+            add_failure(out, "spec", what, dict(recipe=rec, route=route), exp, got, confirmed=True, sig=sig, maxkeep=400)
+
+    # 1. regression corpus: witnesses of REPAIRED findings and past failures (seeded regressions, minimised violations).
+    #    They must hold now; a failure gets a `regression:` signature that no known finding can match.
+    for ent in corpus_entries():
+        for route in ent["routes"]:
+            r = check_one(ctx, ent["recipe"], route)
+            out["evaluations"] += 1
+            if r is None:
+                bump(out, "corpus", "holds")
+                out["nontrivial"].add(("corpus", ent["id"], route))
+            elif r[0] == "skip":
+                bump(out, "corpus", f"skipped:{r[1]}")
+            else:
+                bump(out, "corpus", "REGRESSION")
+                record(ent["recipe"], route, r, prefix=f"regression:{ent['id']}:")
+    # 2. witnesses of the OPEN findings: every field that differs is reported, not only the one the finding is about
+    for k in known:
+        w = k.get("witness")
+        if w:
+            r = check_one(ctx, w["recipe"], w["route"])
+            out["evaluations"] += 1
+            if isinstance(r, list):
+                record(w["recipe"], w["route"], r)
+    # 3. seeded histories
     for fam, (gen, routes) in H.FAMILIES.items():
         rng = ctx.subrng(f"spec:{fam}:{budget}")
-        n = max(2, int(QUICK_N[fam] * scale * (1.0 if ctx.thorough else 0.75)))
+        n = max(2, int(QUICK_N[fam] * budget * (1.0 if ctx.thorough else 0.75)))
         for i in range(n):
             if fam == "lf":
                 rec = gen(rng, optimise=(i % 3 == 2))
@@ -167,19 +220,25 @@ def spec_check(ctx, budget):
                 elif r[0] == "skip":
                     bump(out, "skipped", f"{fam}:{r[1]}")
                 else:
-                    sig, what, exp, got = r
-                    bump(out, "failed", sig)
-                    # keep every failure that no listed finding explains; of the explained ones keep a few per finding,
-                    # so that the bounded failure list can never crowd out an unexplained failure
-                    probe = dict(sig=sig, input=dict(recipe=rec, route=route))
-                    hit = next((k["id"] for k in known if match_finding(probe, k)), None)
-                    if hit is not None:
-                        kept_per_known[hit] = kept_per_known.get(hit, 0) + 1
-                        bump(out, "explained_by", hit)
-                        if kept_per_known[hit] > 4:
-                            continue
-                    add_failure(out, "spec", what, dict(recipe=rec, route=route), exp if not isinstance(exp, dict) or len(str(exp)) < 600 else "(observation of the original)", got, confirmed=True, sig=sig, maxkeep=400)
+                    record(rec, route, r)
     return out
+
+
+def corpus_entries():
+    """[{id, recipe, routes}] = witnesses of entries marked `fixed` in known_findings.d/C10.json + corpus/C10/*.json"""
+    from .common import VERIF
+
+    res = []
+    fp = VERIF / "known_findings.d" / "C10.json"
+    if fp.exists():
+        for k in json.loads(fp.read_text()).get("findings", []):
+            if k.get("status") == "fixed" and k.get("witness"):
+                w = k["witness"]
+                res.append(dict(id=k["id"], recipe=w["recipe"], routes=[w["route"]] + list(w.get("also_routes", []))))
+    for f in sorted((VERIF / "corpus" / "C10").glob("*.json")):
+        for ent in json.loads(f.read_text()):
+            res.append(dict(id=ent["id"], recipe=ent["recipe"], routes=ent["routes"]))
+    return res
 
 
 # --------------------------------------------------------------------------
@@ -288,7 +347,7 @@ def correspondence(ctx):
                 if impl == "old":
                     push("view_from_rich", n, st, guarded(lambda: _real_pair(v.copy(sliced=True), val)), dict(m, what="SeqView.copy(sliced=True)"))
                 else:
-                    push("view_copy_new_fixed", n, st, guarded(lambda: _real_pair(v.copy(sliced=True), val)), dict(m, what="SeqView.copy(sliced=True)"))
+                    push("view_copy_new", n, st, guarded(lambda: _real_pair(v.copy(sliced=True), val)), dict(m, what="SeqView.copy(sliced=True)"))
                 continue
             if impl == "old":
                 push("view_from_rich", n, st, guarded(lambda: _real_pair(v.copy(sliced=True), val)), dict(m, what="SeqView.copy(sliced=True)"))
@@ -296,10 +355,10 @@ def correspondence(ctx):
                 push("old", n, st, guarded(lambda: _real_pair(deserialise_object(json.loads(mk(v.copy()).to_json()))._seq, val)), dict(m, what="Sequence json"))
                 push("copy_old", n, st, guarded(lambda: _real_pair(mk(v.copy()).copy(sliced=True)._seq, val)), dict(m, what="Sequence.copy"))
             else:
-                push("view_copy_new_fixed", n, st, guarded(lambda: _real_pair(v.copy(sliced=True), val)), dict(m, what="SeqView.copy(sliced=True)"))
+                push("view_copy_new", n, st, guarded(lambda: _real_pair(v.copy(sliced=True), val)), dict(m, what="SeqView.copy(sliced=True)"))
                 mk = lambda vv: text_mt.make_seq(seq=vv, name="s")
                 push("new", n, st, guarded(lambda: _real_pair(deserialise_object(json.loads(mk(v.copy()).to_json()))._seq, val)), dict(m, what="Sequence json"))
-                push("copy_new_fixed", n, st, guarded(lambda: _real_pair(mk(v.copy()).copy(sliced=True)._seq, val)), dict(m, what="Sequence.copy"))
+                push("copy_new", n, st, guarded(lambda: _real_pair(mk(v.copy()).copy(sliced=True)._seq, val)), dict(m, what="Sequence.copy"))
         # SeqDataView (sequence inside a new-style collection); offset is always 0 there
         if n > 0:
             sd = new_alignment.SeqsData(data={"a": parent}, alphabet=alpha)
@@ -330,11 +389,10 @@ def correspondence(ctx):
             reals.append(guarded(f))
             metas.append(dict(n=n, init=(None, None, None), ops=[], offset=off, impl=impl, what=f"_coerce_to_seqview(annotation_offset={aoff})"))
     model = ctx.driver.batch(reqs)
-    # The primary path is the model of the code as it is NOW.  new SeqView.copy / Sequence.copy were repaired in the repo
-    # (f9c946a7e): primary = viewCopyNewRepaired / seqCopyNewRepaired (theorem seq_copy_new_repaired_roundtrip), alternative =
-    # the pre-fix mirror (viewCopyNew / seqCopyNew, `_partial` + `_counter` theorems) so an unrepaired tree still ties.
-    # SeqDataView.to_rich_dict still loses information: primary = the mirrored defect, alternative = the repaired branch.
-    REPAIRED = {"view_copy_new_fixed": "view_copy_new", "copy_new_fixed": "copy_new", "dataview_rich": "view_rich"}
+    # The model mirrors the code as it is NOW. One modelled branch still loses information (SeqDataView.to_rich_dict,
+    # `dataview_export_partial` / `_counter`): if the implementation is repaired it must agree with the branch the
+    # full-strength statement is about (`view_rich`) instead.
+    REPAIRED = {"dataview_rich": "view_rich"}
     alt_idx = [i for i, (c, rq) in enumerate(reqs) if rq["path"] in REPAIRED]
     alts = dict(zip(alt_idx, ctx.driver.batch([("rebase", dict(reqs[i][1], path=REPAIRED[reqs[i][1]["path"]])) for i in alt_idx])))
     for i, ((cmd, rq), real, mod, meta) in enumerate(zip(reqs, reals, model, metas)):
@@ -345,7 +403,7 @@ def correspondence(ctx):
             if rq["path"] == "dataview_rich" and isinstance(real, dict) and "seq" in real:
                 alt = dict(alt, offset=mod.get("offset"))
             if real == alt:
-                bump(out, "repaired_branch" if rq["path"] == "dataview_rich" else "prefix_branch", rq["path"])
+                bump(out, "repaired_branch", rq["path"])
                 continue
         if real != mod:
             add_failure(out, "corr", f"re-basing model differs from {meta['impl']} {meta['what']}", dict(meta, view={k: rq[k] for k in ("start", "stop", "step", "offset", "seq_len")}, path=rq["path"]), mod, real, confirmed=False)
@@ -483,15 +541,26 @@ def match_finding(f, k):
             return False
     if r.get("model_names") and rec.get("name") not in r["model_names"]:
         return False
+    if r.get("forbid_tags") and (set(r["forbid_tags"]) & tags):
+        return False
+    if r.get("what_contains") and r["what_contains"] not in (f.get("what") or ""):
+        return False
+    if "got" in r and f.get("got") != r["got"]:
+        return False
     return True
 
 
 def check_witness(ctx, w):
+    """replays an OPEN finding's witness; returns the failure about the finding's own field if it is still there
+    (every other differing field of the witness is reported by spec_check itself)"""
     r = check_one(ctx, w["recipe"], w["route"])
-    if r is None or r[0] == "skip":
+    if not isinstance(r, list):
         return None
+    want = w.get("sig")
+    pick = next((x for x in r if x[0] == want), None) if want else None
+    pick = pick or r[0]
     out = new_outcome()
-    add_failure(out, "spec", r[1], dict(recipe=w["recipe"], route=w["route"]), r[2] if len(str(r[2])) < 600 else "(observation of the original)", r[3], confirmed=True, sig=r[0])
+    add_failure(out, "spec", pick[1], dict(recipe=w["recipe"], route=w["route"]), pick[2], pick[3], confirmed=True, sig=pick[0])
     return out["failures"][0]
 
 
@@ -501,5 +570,9 @@ def replay(ctx, data):
     if "recipe" not in inp:
         return False
     r = check_one(ctx, inp["recipe"], inp["route"])
-    print("replay:", r if r is None or r[0] == "skip" else (r[0], r[1], "expected", str(r[2])[:300], "got", str(r[3])[:300]))
-    return not (r is None or r[0] == "skip")
+    if isinstance(r, list):
+        for x in r:
+            print("replay:", x[0], "|", x[1], "| expected", str(x[2])[:300], "| got", str(x[3])[:300])
+        return True
+    print("replay:", r)
+    return False
